@@ -4,7 +4,7 @@ TIES = ["PointEquals", "NewBounds", "NewBoundsPoint", "Copy", "Empty", "ExtendPo
         "Extend", "Overlaps", "Within", "Intersection", "Area", "Centroid",
         "PointBounds", "MultiPointBounds", "LineStringBounds", "MultiLineStringBounds", "PolygonBounds", "MultiPolygonBounds", "Lens",
         "PointsSimple", "PointsMultiLineString", "PointsPolygon", "PointsMultiPolygon", "PointsBounds",
-        "CollectionLenBounds", "PointsCollection"]
+        "CollectionLenBounds", "PointsCollection", "State"]
 TIE_MODULES = [T + "Ties." + n for n in TIES]
 SRC_DEPS = {"Overlaps": ["Overlaps"], "Intersection": ["Intersection"], "Extend": ["Extend"],
             "Basic": ["Empty", "Copy", "NewBounds", "NewBoundsPoint", "ExtendPoints"],
@@ -13,7 +13,7 @@ SRC_DEPS = {"Overlaps": ["Overlaps"], "Intersection": ["Intersection"], "Extend"
 SRC_MODULES = [T + "Src." + n for n in SRC_DEPS]
 CFG = {
     "id": "C04",
-    "lean_modules": ["GeomV.C04.Proofs", "GeomV.C04.ProofsNaN"] + TIE_MODULES + SRC_MODULES,
+    "lean_modules": ["GeomV.C04.Proofs", "GeomV.C04.ProofsNaN", "GeomV.C04.ProofsMore"] + TIE_MODULES + SRC_MODULES,
     "exe": "geomv_c04",
     "go_cmd": "c04",
     "stages": ["go:gen", "go:impl", "lean:judge"],
@@ -29,6 +29,14 @@ CFG = {
         # NaN coordinates (outside the quantifier): what Bounds() is then — the plain math.Min/Max fold per axis, for any
         # member structure — from algebraic laws of Min/Max/< that float64-with-NaN (NV) is proved to satisfy
         "C04_nan_bounds_flat", "NV.nlaws", "C04_nan_bounds", "C04_nan_axis_min", "C04_nan_axis_max",
+        # … and the envelope clause read with NaN (SpecNaN.lean: an axis without NaN has non-NaN sides, a non-NaN side is an
+        # attained bound of the non-NaN coordinates of its axis), proved for the model, its decidable form = the Prop,
+        # the executed instance; a *Bounds with NaN sides as a geometry
+        "C04_nan_envelope", "C04_spec_envelopeNaN", "C04_nan_exec", "C04_nan_box_geometry",
+        # outside the hypotheses: Len()/Bounds() panic exactly when a member is nil (nil dereference, the only possible
+        # fault); the first call beyond Len() (Point: itself again; *Bounds without points: its Min corner; *Bounds with
+        # points: "out of bounds"; every other type incl. collections: index out of range)
+        "C04_len_fault_iff", "C04_bounds_fault_iff", "C04_pointsOf_nil", "C04_points_exhausted",
         # the executed coordinate type is an instance of the theorems
         "C04_exec", "FKey.instances_agree",
         # T1: definitions regenerated from bounds.go / point.go of the tree under test = the model's (rfl)
@@ -49,6 +57,11 @@ CFG = {
         # constructor establishes and every call preserves)
         "C04_tie_Bounds_Points", "C04_tie_GeometryCollection_Len", "C04_tie_GeometryCollection_Bounds",
         "C04_tie_GeometryCollection_Points",
+        # hidden state (GenState.lean, regenerated): no analysed function (the 37 targets, their function literals, what they call
+        # inside the anchored files) writes a package-level variable, stores through a parameter, takes an address, appends to
+        # a caller's slice or starts a goroutine; the only non-local writes are Extend/extendPoint on their receiver and each
+        # Points() closure on its own captured counters
+        "C04_tie_State",
         # the box theorems restated for the regenerated definitions
         "C04_overlaps_src", "C04_intersection_src", "C04_extend_join_src", "C04_extend_laws_src", "C04_empty_src",
         "C04_copy_src", "C04_newBounds_src", "C04_extendPoints_src",
@@ -120,24 +133,60 @@ def pregen(check):
         with open(gen + ".tmp", "w") as f:
             f.write(p.stdout)
         os.replace(gen + ".tmp", gen)
+    # hidden-state tie: GenState.lean (non-local writes of every analysed function, package-level variables)
+    ps = subprocess.run([gobin, "extract", "--state", "--repo", vcheck.REPO], stdout=subprocess.PIPE, stderr=subprocess.PIPE, text=True)
+    if ps.returncode != 0 or "def nonlocalWrites" not in ps.stdout:
+        drop([T + "Ties.State"], "T1 tie: state extractor failed: " + ps.stderr.strip()[-300:])
+    else:
+        gs = os.path.join(vcheck.LEAN, "GeomV", "C04", "GenState.lean")
+        if (open(gs).read() if os.path.exists(gs) else "") != ps.stdout:
+            with open(gs + ".tmp", "w") as f:
+                f.write(ps.stdout)
+            os.replace(gs + ".tmp", gs)
+    STATE = T + "Ties.State"
+    mods = [m for m in TIE_MODULES + SRC_MODULES if m in cfg["lean_modules"]]
     if p.returncode == 3:
-        # Gen.lean was written with a declaration that does not elaborate in place of the function
-        drop(TIE_MODULES + SRC_MODULES, "T1 tie: " + p.stderr.strip()[-600:])
-        return
-    with vcheck.Lock("lake"):
-        b = subprocess.run(["lake", "build"] + TIE_MODULES + SRC_MODULES, cwd=vcheck.LEAN, stdout=subprocess.PIPE,
-                           stderr=subprocess.STDOUT, text=True)
-    if b.returncode == 0:
-        return
-    failed = set(re.findall(r"^- (\S+)", b.stdout, flags=re.M)) | set(re.findall(r"^✖ \[\d+/\d+\] Building (\S+)", b.stdout, flags=re.M))
-    if T + "Gen" in failed:
-        drop(TIE_MODULES + SRC_MODULES, "T1 tie: regenerated Gen.lean does not elaborate: " + " | ".join(re.findall(r"error: .*", b.stdout)[:3]))
-        return
-    bad_ties = [n for n in TIES if T + "Ties." + n in failed]
-    bad = [T + "Ties." + n for n in bad_ties]
-    bad += [T + "Src." + sname for sname, deps in SRC_DEPS.items() if T + "Src." + sname in failed or any(d in bad_ties for d in deps)]
-    drop(bad, "T1 tie broken: the Go function(s) %s no longer denote the model's function (modules left out: %s)"
-         % (", ".join(bad_ties) or "?", ", ".join(m[len(T):] for m in bad)))
+        # Gen.lean was written with a declaration that does not elaborate in place of the function; the hidden-state tie
+        # does not rest on Gen.lean and is still checked
+        drop([m for m in mods if m != STATE], "T1 tie: " + p.stderr.strip()[-600:])
+        mods = [m for m in mods if m == STATE]
+    else:
+        # extractor self-check: an independent second pass over the go/ast (selfcheck.go) compared atom by atom with the
+        # generated Lean text (exact sequences for straight-line functions, census for the others)
+        pc = subprocess.run([gobin, "extract", "--selfcheck", "--repo", vcheck.REPO], stdout=subprocess.PIPE, stderr=subprocess.PIPE, text=True)
+        if pc.returncode != 0:
+            check.broken.append("T1 extractor self-check: " + pc.stderr.strip()[-600:])
+    # build the tie modules; leave out the ones that fail (and what rests on them) and build again, so that a failure
+    # that hid behind another one is found too and every remaining obligation is still audited
+    bad_ties, bad_all = [], []
+    for _ in range(5):
+        if not mods:
+            break
+        with vcheck.Lock("lake"):
+            b = subprocess.run(["lake", "build"] + mods, cwd=vcheck.LEAN, stdout=subprocess.PIPE,
+                               stderr=subprocess.STDOUT, text=True)
+        if b.returncode == 0:
+            break
+        failed = set(re.findall(r"^- (\S+)", b.stdout, flags=re.M)) | set(re.findall(r"^✖ \[\d+/\d+\] Building (\S+)", b.stdout, flags=re.M))
+        if T + "Gen" in failed:
+            drop([m for m in mods if m != STATE], "T1 tie: regenerated Gen.lean does not elaborate: " + " | ".join(re.findall(r"error: .*", b.stdout)[:3]))
+            mods = [m for m in mods if m == STATE and STATE not in failed]
+            if STATE in failed:
+                bad_ties.append("State"); bad_all.append(STATE)
+            continue
+        bt = [n for n in TIES if T + "Ties." + n in failed and n not in bad_ties]
+        bad = [T + "Ties." + n for n in bt]
+        bad += [T + "Src." + sname for sname, deps in SRC_DEPS.items()
+                if T + "Src." + sname in mods and (T + "Src." + sname in failed or any(d in bt for d in deps))]
+        if not bad:
+            drop(mods, "T1 tie: lake build of the tie modules failed: " + " | ".join(re.findall(r"error: .*", b.stdout)[:3]))
+            return
+        bad_ties += bt
+        bad_all += bad
+        mods = [m for m in mods if m not in bad]
+    if bad_all:
+        drop(bad_all, "T1 tie broken: the Go function(s) %s no longer denote the model's function (modules left out: %s)"
+             % (", ".join(bad_ties) or "?", ", ".join(m[len(T):] for m in bad_all)))
 
 
 CFG["pregen"] = pregen
